@@ -42,7 +42,24 @@ type TreeCase struct {
 	// DirAs: how the input directory is NAMED on the command line ("" = the relative name D; "slash"
 	// = D/; "dotslash" = ./D; "updown" = D/../D; "abs" = absolute path; "dot" / "dot/" = the tool
 	// runs inside the directory and is given "." / "./"). The bundle must be the same.
+	// Also: "linkparent" = LP/D where LP is a symbolic link to the directory that holds D;
+	// "linkdir" / "linkdir/" = LD and LD/ where LD is a symbolic link to D itself.
 	DirAs string `json:"dir_as,omitempty"`
+	// LinkDirs: symbolic links INSIDE the tree (path components below D) that point at a directory
+	// outside it. Nothing is promised about what lies behind them (they are not regular files);
+	// the tool may refuse the tree, skip them or follow them - but must not emit a broken bundle.
+	LinkDirs [][]string `json:"link_dirs,omitempty"`
+}
+
+// behindLink: is the decoded URL path at or below one of the tree's directory links?
+func (t *TreeCase) behindLink(base *url.URL, p string) bool {
+	for _, l := range t.LinkDirs {
+		pre := dirPath(base) + strings.Join(l, "/")
+		if p == pre || strings.HasPrefix(p, pre+"/") {
+			return true
+		}
+	}
+	return false
 }
 
 const f7chars = "#?%:"
@@ -192,6 +209,12 @@ func (t *TreeCase) genBundleArgs(base *url.URL) []string {
 		a[1] = "./D"
 	case "updown":
 		a[1] = "D/../D"
+	case "linkparent":
+		a[1] = "LP/D"
+	case "linkdir":
+		a[1] = "LD"
+	case "linkdir/":
+		a[1] = "LD/"
 	case "abs":
 		a[1] = "ABS" // replaced by the absolute path at run time
 	case "dot":
@@ -309,7 +332,29 @@ func checkTree(r *vh.R, t *TreeCase, tmp string) (*bundle.Bundle, bool) {
 	if t.DirAs != "" {
 		r.Class("dir-named-" + t.DirAs)
 	}
+	switch t.DirAs {
+	case "linkparent":
+		must(os.Symlink(".", filepath.Join(tmp, "LP")))
+	case "linkdir", "linkdir/":
+		must(os.Symlink("D", filepath.Join(tmp, "LD")))
+	}
+	if len(t.LinkDirs) > 0 {
+		must(os.MkdirAll(filepath.Join(tmp, "OUTSIDE", "inner"), 0o755))
+		must(os.WriteFile(filepath.Join(tmp, "OUTSIDE", "o.txt"), []byte("outside"), 0o644))
+		must(os.WriteFile(filepath.Join(tmp, "OUTSIDE", "inner", "index.html"), []byte("<p>outside</p>"), 0o644))
+		for _, l := range t.LinkDirs {
+			p := filepath.Join(append([]string{tmp, "D"}, l...)...)
+			must(os.MkdirAll(filepath.Dir(p), 0o755))
+			must(os.Symlink(filepath.Join(tmp, "OUTSIDE"), p))
+		}
+		r.Class("tree-with-directory-symlink")
+	}
 	g := runTool(gdir, nil, "gen-bundle", gargs...)
+	if g.exit != 0 && len(t.LinkDirs) > 0 {
+		r.Class("directory-symlink-refused")
+		r.NT()
+		return nil, false
+	}
 	if g.exit != 0 {
 		failTool(r, "gen-bundle-failed", "gen-bundle refused a directory inside the documented domain", g, ctx)
 		return nil, false
@@ -340,6 +385,7 @@ func checkTree(r *vh.R, t *TreeCase, tmp string) (*bundle.Bundle, bool) {
 		return nil, false
 	}
 	seen := map[string]bool{}
+	behind := 0
 	for _, e := range b.Exchanges {
 		u := e.Request.URL
 		if u.Scheme != base.Scheme || u.Host != base.Host || u.User != nil {
@@ -353,6 +399,10 @@ func checkTree(r *vh.R, t *TreeCase, tmp string) (*bundle.Bundle, bool) {
 		if u.Fragment != "" {
 			r.Failf("url-fragment", "exchange URL %q has a fragment (%s)\n  %s", u, g.cmdline, ctx)
 			return nil, false
+		}
+		if t.behindLink(base, u.Path) {
+			behind++
+			continue
 		}
 		w, ok := model[u.Path]
 		if !ok {
@@ -411,7 +461,7 @@ func checkTree(r *vh.R, t *TreeCase, tmp string) (*bundle.Bundle, bool) {
 			return nil, false
 		}
 	}
-	if len(b.Exchanges) != len(model) {
+	if len(b.Exchanges)-behind != len(model) {
 		r.Failf("count", "bundle has %d exchanges, expected %d", len(b.Exchanges), len(model))
 		return nil, false
 	}
@@ -512,7 +562,7 @@ func genBody(t *rapid.T, label string) (vh.B, int) {
 // genTree draws a directory tree. noF7: never produce '#', '?', '%', ':' in names.
 func genTree(t *rapid.T, noF7 bool, bases []string) TreeCase {
 	c := TreeCase{Base: rapid.SampledFrom(bases).Draw(t, "base"), Version: rapid.SampledFrom([]string{"b1", "b2", "b2", "default"}).Draw(t, "version"),
-		DirAs: rapid.SampledFrom([]string{"", "", "", "slash", "dotslash", "updown", "abs", "dot", "dot", "dot/"}).Draw(t, "diras")}
+		DirAs: rapid.SampledFrom([]string{"", "", "", "slash", "dotslash", "updown", "abs", "dot", "dot", "dot/", "linkparent", "linkdir", "linkdir/"}).Draw(t, "diras")}
 	type dir struct {
 		path []string
 		used map[string]bool
@@ -570,6 +620,12 @@ func fixedTrees() []TreeCase {
 		{Base: "https://a.example/", Version: "b2", DirAs: "abs", Files: []FileSpec{f("h", ".htaccess"), f("x", "a.txt")}},
 		{Base: "https://a.example/", Version: "b2", DirAs: "slash", Files: []FileSpec{f("h", ".h"), f("x", "a.txt")}},
 		{Base: "https://a.example/", Version: "b2", DirAs: "dotslash", Files: []FileSpec{f("h", ".h"), f("x", "a.txt")}},
+		// the environment: symbolic links on the way to the directory, as the directory, inside it
+		{Base: "https://a.example/app/", Version: "b2", DirAs: "linkparent", Files: []FileSpec{f("x", "a b.txt"), f("i", "sub", "index.html")}},
+		{Base: "https://a.example/app/", Version: "b1", Primary: 0, DirAs: "linkdir", Files: []FileSpec{f("x", "a.txt"), f("i", "sub", "index.html")}},
+		{Base: "https://a.example/app/", Version: "b2", DirAs: "linkdir/", Files: []FileSpec{f("x", "a.txt"), f("i", "index.html")}},
+		{Base: "https://a.example/", Version: "b2", LinkDirs: [][]string{{"assets"}}, Files: []FileSpec{f("x", "a.txt"), f("i", "index.html")}},
+		{Base: "https://a.example/", Version: "b1", Primary: 0, LinkDirs: [][]string{{"sub", "shared"}}, Files: []FileSpec{f("x", "a.txt"), f("y", "sub", "b.txt")}},
 		// URL metacharacters in names (finding F7; skipped under VERIF_C20_SKIP_F7=1)
 		{Base: "https://a.example/base/", Version: "b2", Files: []FileSpec{f("h", "h#frag.txt"), f("q", "a?b"), f("p", "p%41"), f("x", "100%"), f("c", "c:d.txt"), f("n", "sub:dir", "x y#1.txt")}},
 	}
